@@ -22,7 +22,7 @@ case $WHAT in
   race)  [ -x $OUT/upfsim-race ] || need_race=1;;
   both)  [ -x $OUT/upfsim ] || need_plain=1; [ -x $OUT/upfsim-race ] || need_race=1;;
 esac
-if [ $need_plain = 0 ] && [ $need_race = 0 ]; then echo "$OUT"; exit 0; fi
+if [ $need_plain = 0 ] && [ $need_race = 0 ]; then touch "$OUT"; echo "$OUT"; exit 0; fi
 exec 9>"$CACHE/.lock"; flock 9
 # re-check after taking the lock
 [ -x $OUT/upfsim ] && need_plain=0
@@ -51,6 +51,8 @@ if [ $need_race = 1 ]; then
   (cd $SC && $GO build -race -o $OUT/upfsim-race.tmp ./zzverif/cmd/upfsim) >&2 || { echo "build.sh: race build failed" >&2; exit 2; }
   mv $OUT/upfsim-race.tmp $OUT/upfsim-race
 fi
-# keep the cache small: drop all but the 6 most recent entries
-ls -1dt $CACHE/*/ 2>/dev/null | tail -n +31 | xargs -r rm -rf
+# keep the cache bounded
+# prune by age, never by count: a concurrent check (or an evaluation of seeded changes) may still be
+# running a binary from an older directory; every use refreshes the directory's time stamp
+find $CACHE -mindepth 1 -maxdepth 1 -type d -mmin +180 -exec rm -rf {} + 2>/dev/null
 echo "$OUT"
